@@ -37,7 +37,7 @@ def main():
         "version": 1,
         "setup_cmd": "./setup.sh",
         "hooks": {"guard": "DANMAR_CPPCHECK_VERIF", "enable": "no hooks: the verifier reads /repo sources directly; nothing in /repo is guarded",
-                  "baseline_off_cmd": "cmake --build /repo/_build -j16 && ctest --test-dir /repo/_build -j8 --timeout 900",
+                  "baseline_off_cmd": "cmake --build /repo/_build -j16 && (ctest --test-dir /repo/_build -j8 --timeout 900 || ctest --test-dir /repo/_build --rerun-failed --timeout 900)",
                   "source_commits": _scope.FIX_COMMITS, "add_only": True},
         "engines": [{"name": "vcheck", "path": "/verif/vcheck", "serves_properties": sorted(_scope.CLAIMED),
                      "kind_free_text": "extractor (C++ -> C, rule based, must-fire) + CBMC contracts driver + native replay against a private build of /repo"}],
